@@ -384,6 +384,7 @@ pub fn def(tier: crate::runner::Tier) -> CheckDef {
             "char::is_alphabetic / is_alphanumeric / is_whitespace of the Rust standard library define the character classes",
         ],
         idle_limit_s: 300,
+        needs_cli: false,
         parts: vec![
             Part {
                 name: "enum-classes",
